@@ -8,12 +8,21 @@ Each /verif/mutants/*.diff (or a seeded change /verif/seeded/<id>/patch.diff) st
 The patch is applied to a scratch git worktree of /repo (removed afterwards); the scratch tree
 must still build; the named checks run against it (VERIF_REPO) with evidence redirected (VERIF_OUT).
 """
-import os, re, subprocess, sys, tempfile, shutil, json, concurrent.futures as cf
+import time, os, re, subprocess, sys, tempfile, shutil, json, concurrent.futures as cf
 
 VERIF = os.environ.get("VERIF_DIR", "/verif")
 REPO = "/repo"
 ENV = dict(os.environ, GOFLAGS="-mod=mod", GOPROXY="off", GOSUMDB="off", GOTOOLCHAIN="local")
 ENV.pop("GOWORK", None)
+
+def wt_add(path):
+    """git worktree add with retries (other processes may hold the repository lock)"""
+    for i in range(8):
+        p = subprocess.run(["git", "-C", REPO, "worktree", "add", "--detach", "-f", path], capture_output=True, text=True)
+        if p.returncode == 0:
+            return
+        time.sleep(1 + i)
+    raise RuntimeError("git worktree add failed: " + p.stderr)
 
 def header(path):
     h = {}
@@ -33,7 +42,7 @@ def run_one(path, tier):
     out = os.path.join(tmp, "out")
     res = {"mutant": name, "expect": expect, "props": {}, "ok": True, "msg": ""}
     try:
-        subprocess.run(["git", "-C", REPO, "worktree", "add", "--detach", "-f", wt], check=True, capture_output=True)
+        wt_add(wt)
         p = subprocess.run(["git", "-C", wt, "apply", "--whitespace=nowarn", path], capture_output=True, text=True)
         if p.returncode != 0:
             res["ok"] = False; res["msg"] = "patch does not apply: " + p.stderr.strip(); return res
